@@ -7,7 +7,8 @@ prop("C09", pkg="c09",
           "(memory the library keeps only behind unsafe pointers or wrongly typed scratch is then collected while in use). A second generator draws one json type "
           "from the whole jgen type space (fresh nonce), and 2..12 goroutines encode a value and decode a document 1..6 times each, half of the time under forced GC. "
           "proto.TypeOf results include the identity of the descriptor. The test binary is built with -race and run at GOMAXPROCS 16, 4 and 2. Oracle: every "
-          "result equals the result of the same call executed alone afterwards; the race detector reports nothing; the process does not die. Non-trivial = a fresh "
+          "result equals the result of the same call executed alone afterwards; the race detector reports nothing; the process does not die; every round of calls returns (a round still running after 180 s is reported "
+          "as a call that does not return, with the script in flight). Non-trivial = a fresh "
           "type whose first use was performed by >= 2 goroutines in the same round; distinct = FNV-64 of the script.",
      quick=dict(shards=5, scale=1, timeout=900),
      thorough=dict(shards=6, scale=15, timeout=3400),
